@@ -133,11 +133,11 @@ Proof. unfold find_req. apply find_map_same. intro x. now rewrite set_login_id. 
 
 (* ---- state shapes after the two issuing transitions ---- *)
 Lemma issue_code_shape s q c :
-  let s' := fst (issue_code s q c) in
+  let s' := fst (issue_code cf s q c) in
   reqs s' = filter (fun x => negb (Nat.eqb (q_id x) (q_id q))) (reqs s)
   /\ codes s' = filter (fun p => negb (Nat.eqb (snd p) (q_id q))) (codes s)
   /\ ncode s' = ncode s /\ next s <= next s'
-  /\ exists t0, snd (issue_code s q c) = OTokens t0
+  /\ exists t0, snd (issue_code cf s q c) = OTokens t0
      /\ ((t_rt t0 = None /\ rtoks s' = rtoks s)
          \/ (exists new, t_rt t0 = Some (S (next s)) /\ rtoks s' = new :: rtoks s /\ r_id new = S (next s)
                          /\ S (next s) <= next s' /\ matches t0 new)).
@@ -283,7 +283,7 @@ Proof.
   - (* code exchange *)
     destruct (issue_code_shape s q c) as [Sreq [Scodes [Sncode [Snext [t0 [Sout Srt]]]]]].
     destruct (code_req_in _ _ _ Hcr) as [Hcin Hqf].
-    fold ev. set (s1 := fst (issue_code s q c)) in *. set (x1 := snd (issue_code s q c)) in *.
+    fold ev. set (s1 := fst (issue_code cf s q c)) in *. set (x1 := snd (issue_code cf s q c)) in *.
     assert (Hfr : forall m, m <> q_id q -> find_req s1 m = find_req s m).
     { intros m Hne. unfold find_req. rewrite Sreq. now apply find_req_other. }
     constructor.
